@@ -493,3 +493,131 @@ pub fn grid_time_shapes(all: bool, part: u64) -> Vec<String> {
     }
     v
 }
+
+/// Located exact grid: with coordinates in the context the times of sun events depend on the day, so
+/// an event-based span bound may lie before midnight on one day and after it on the next. For day
+/// selectors that let the iterator jump (no weekday), and spans whose event + offset lands within
+/// +-3 minutes of 24:00 / 00:00 on the selector's last matching day, the whole stream of 25 years is
+/// compared with the result of evaluating every day; next_change is sampled as in `check_exact`.
+pub type LocOh = OpeningHours<opening_hours::localization::TzLocation<chrono_tz::Tz>>;
+
+pub fn located_grid_expressions(lat: f64, lon: f64) -> Vec<String> {
+    use chrono::{Datelike, Timelike};
+    use opening_hours::localization::Coordinates;
+    use opening_hours_syntax::rules::time::TimeEvent;
+    let Some(c) = Coordinates::new(lat, lon) else { return Vec::new() };
+    let mut out = Vec::new();
+    for sel in ["Aug 15", "Jan", "week 10", "2030", "easter", "Jul 20-Jul 22", "Dec 31", "Feb 29", "Mar-Jun"] {
+        // the selector's last matching day in 2024 (2030 for the year selector), found by scanning
+        let Ok(plain) = OpeningHours::parse(sel) else { continue };
+        let year = if sel == "2030" { 2030 } else { 2024 };
+        let mut last = None;
+        let mut d = NaiveDate::from_ymd_opt(year, 1, 1).unwrap();
+        while d.year() == year {
+            if plain.schedule_at(d).into_iter().any(|t| t.kind == RuleKind::Open) {
+                last = Some(d);
+            }
+            d = d.succ_opt().unwrap();
+        }
+        let Some(last) = last else { continue };
+        for (ev, name) in [(TimeEvent::Dawn, "dawn"), (TimeEvent::Sunrise, "sunrise"), (TimeEvent::Sunset, "sunset"), (TimeEvent::Dusk, "dusk")] {
+            let t = c.event_time(last, ev);
+            let e = (t.hour() * 60 + t.minute()) as i32;
+            for delta in -3..=3i32 {
+                let fmt = |o: i32| format!("({name}{}{:02}:{:02})", if o < 0 { '-' } else { '+' }, o.abs() / 60, o.abs() % 60);
+                let up = 1440 - e + delta; // event + up ~ 24:00
+                if (1..=1440).contains(&up) {
+                    out.push(format!("{sel} {}-24:00", fmt(up)));
+                    out.push(format!("{sel} {}-26:00 unknown", fmt(up)));
+                    out.push(format!("{sel} 12:00-{}", fmt(up)));
+                }
+                let down = -(e + delta); // event + down ~ 00:00
+                if (-1440..=-1).contains(&down) {
+                    out.push(format!("{sel} {}-12:00", fmt(down)));
+                    out.push(format!("{sel} 18:00-{} unknown", fmt(down)));
+                }
+            }
+        }
+    }
+    out
+}
+
+pub fn check_exact_located(oh: &LocOh, d0: NaiveDate, d1: NaiveDate, r: &mut Rng, nc_samples: usize, st: &mut ExactStats) -> Result<(), String> {
+    use chrono::TimeZone;
+    let utc = chrono_tz::UTC;
+    let from = d0.and_hms_opt(0, 0, 0).unwrap();
+    let to = d1.and_hms_opt(0, 0, 0).unwrap() + Duration::days(1);
+    // expected runs: every day evaluated (the context's zone is UTC, so local time is the instant)
+    let runs: Vec<(NaiveDateTime, RuleKind)> = guarded(|| {
+        let mut runs: Vec<(NaiveDateTime, RuleKind)> = Vec::new();
+        let mut d = d0;
+        loop {
+            let mut covered_to = ExtendedTime::MIDNIGHT_00;
+            for tr in oh.schedule_at(d) {
+                if tr.range.start >= ExtendedTime::MIDNIGHT_24 {
+                    break;
+                }
+                if runs.last().map(|l| l.1) != Some(tr.kind) {
+                    runs.push((et_to_dt(d, tr.range.start.max(covered_to)), tr.kind));
+                }
+                covered_to = tr.range.end;
+            }
+            if d >= d1 {
+                break;
+            }
+            d = d.succ_opt().unwrap();
+        }
+        runs
+    })?;
+    st.days_evaluated += (d1 - d0).num_days() as u64 + 1;
+    let got: Vec<(NaiveDateTime, NaiveDateTime, RuleKind)> = match with_day_budget(20_000_000, || oh.iter_range(utc.from_utc_datetime(&from), utc.from_utc_datetime(&to)).map(|i| (i.range.start.naive_utc(), i.range.end.naive_utc(), i.kind)).collect::<Vec<_>>())? {
+        Some(g) => g,
+        None => return Err(format!("iter_range({from}, {to}) made more than 20 million day steps")),
+    };
+    for (k, (start, kind)) in runs.iter().enumerate() {
+        let end = runs.get(k + 1).map(|n| n.0).unwrap_or(to);
+        match got.get(k) {
+            None => return Err(format!("iter_range({from}, {to}) ends after {} intervals; the daily schedules give {kind} from {start} to {end}", got.len())),
+            Some((gs, ge, gk)) => {
+                if (gs, ge, gk) != (start, &end, kind) {
+                    return Err(format!("iter_range({from}, {to}) interval #{k} is [{gs}, {ge}) {gk}; evaluating every day gives [{start}, {end}) {kind}"));
+                }
+            }
+        }
+        st.intervals_compared += 1;
+    }
+    if got.len() > runs.len() {
+        let x = got[runs.len()];
+        return Err(format!("iter_range({from}, {to}) yields an extra interval [{}, {}) {}", x.0, x.1, x.2));
+    }
+    for _ in 0..nc_samples.min(runs.len().saturating_sub(1)) {
+        let k = r.below(runs.len() as u64 - 1) as usize;
+        let (start, kind) = runs[k];
+        let end = runs[k + 1].0;
+        let len = (end - start).num_seconds().max(1);
+        let t = match r.below(4) {
+            0 => start,
+            1 => end - Duration::minutes(1),
+            2 => start + Duration::seconds(17),
+            _ => start + Duration::seconds(r.below(len as u64) as i64),
+        };
+        st.next_change_calls += 1;
+        match with_day_budget(20_000_000, || oh.next_change(utc.from_utc_datetime(&t)))? {
+            None => return Err(format!("next_change({t}) made more than 20 million day steps")),
+            Some(g) if g.map(|x| x.naive_utc()) != Some(end) => return Err(format!("next_change({t}) = {:?}; evaluating every day gives {kind} from {start} until {end}", g.map(|x| x.naive_utc()))),
+            _ => {}
+        }
+    }
+    Ok(())
+}
+
+pub const LOCATED_GRID_SITES: [(f64, f64); 5] = [(48.8566, 2.3522), (-33.8688, 151.2093), (59.93, 30.36), (1.35, 103.82), (40.7128, -74.006)];
+
+pub fn build_located(text: &str, lat: f64, lon: f64) -> Option<LocOh> {
+    use opening_hours::localization::{Coordinates, TzLocation};
+    let c = Coordinates::new(lat, lon)?;
+    match guarded(|| OpeningHours::parse(text)) {
+        Ok(Ok(oh)) => Some(oh.with_context(opening_hours::Context::default().with_locale(TzLocation::new(chrono_tz::UTC).with_coords(c)))),
+        _ => None,
+    }
+}
